@@ -11,11 +11,11 @@ import os
 import re
 import vlib
 
-PROOFS = ["MgProof.C02.Arith", "MgProof.C02.Lemmas", "MgProof.C02.LemmasB", "MgProof.C02.LemmasC",
+PROOFS = ["MgProof.Tie.Bits", "MgProof.C02.Arith", "MgProof.C02.Lemmas", "MgProof.C02.LemmasB", "MgProof.C02.LemmasC",
           "MgProof.C02.LemmasD", "MgProof.C02.LemmasE", "MgProof.C02.LemmasG", "MgProof.C02.Assemble", "MgProof.C02.LemmasH",
           "MgProof.C02.Props",
           "MgProof.C03.RingBuffer"]
-GREP = ["MgModel/C02", "MgProof/C02", "MgProof/C03/RingBuffer.lean", "MgModel/Common", "Drv/C02.lean"]
+GREP = ["MgProof/Tie", "MgModel/Generated", "MgModel/C02", "MgProof/C02", "MgProof/C03/RingBuffer.lean", "MgModel/Common", "Drv/C02.lean"]
 REPO_SRCS = ["muggle/c/sync/ring_buffer.c", "muggle/c/sync/spinlock.c", "muggle/c/sync/mutex.c",
              "muggle/c/sync/condition_variable.c", "muggle/c/sync/sync_obj_futex.c",
              "muggle/c/base/thread.c", "muggle/c/base/utils.c"]
@@ -373,6 +373,7 @@ def main(ctx):
                        "in mutex order, payload visible, completion) judges the implementation's own trace; "
                        "distinct = distinct implementation traces")
     ctx.lean_obligations("drv_c02", PROOFS, GREP, leanchecker=["MgProof.C02.Props", "MgProof.C03.RingBuffer"])
+    vlib.tie_a_generated(ctx)
     if not getattr(ctx, "driver_ok", False):
         return
     try:
